@@ -398,6 +398,18 @@ def predict_constructed_model(d, ctx):
         y = rng.normal(size=(*lead, N, D)) * 2
         if single:
             y = y.astype(np.float32)
+    # degenerate frames and magnitudes (decisions from a second stream of the
+    # recorded seed: committed replays keep their meaning)
+    aux = np.random.default_rng([d.choices[-1][1], 778])
+    degenerate = ['none', 'none', 'zero-frame', 'all-zero', 'huge-and-tiny'][int(aux.integers(0, 5))]
+    if degenerate == 'zero-frame':
+        y[..., int(aux.integers(0, N)), :] = 0
+    elif degenerate == 'all-zero':
+        y[...] = 0
+    elif degenerate == 'huge-and-tiny':
+        e = 15 if single else 140     # squares must stay inside the range of the dtype
+        y = (y * 10.0 ** aux.uniform(-e, e, size=(*lead, N, 1))).astype(y.dtype)
+    case.meta['data'] = degenerate
     rd = np.float32 if single else np.float64
     if kind == 'cacgmm':
         cond = d.log10(0, 10)
@@ -463,4 +475,4 @@ def predict_constructed_model(d, ctx):
             f'max |predict - Bayes| = {err:.3e}', kind=kind)
     ctx.nontrivial(K >= 2)
     ctx.label(kind, 'single' if single else 'double',
-              'mask' if mask is not None else 'no-mask')
+              'mask' if mask is not None else 'no-mask', 'frames=' + degenerate)
